@@ -19,15 +19,15 @@ EXTRA = {
     'C09': 'C09.f the cached search reads the table next to the cached index only for arguments Locate keeps inside the domain (concrete table, call-site path conditions); search phases written with std::lower_bound/upper_bound are classified by the segment convention they implement',
     'C05': 'C05.e Determinant keeps no state in the object, or every member that can change the entries (also through a mutable reference it hands out) resets it; the row operation of the elimination covers every column of the work array; the pivot may be read into a local only after the exchange',
     'C01': 'data-dependent alternatives of the Steffen slope stay inside the monotonicity box on a sample table of secants (zeros, both signs, 1e-20..1e6); every returning path of Interpolate evaluates the segment polynomial (shortcuts only at exactly tested points)',
-    'C04': 'block (r,c) of the block constructor lands at the prefix sums of heights/widths (running offsets by closed form, 3x3 layout with distinct prefix sums); multi-path Norm on small concrete objects; size invariant of Vector (components.size()==dimension after every writer) and copy completeness of the copy constructors / operator= of Vector and Matrix (every member copied on every path)',
+    'C04': 'C04.e no floating-point value passes through the integer abs(); block (r,c) of the block constructor lands at the prefix sums of heights/widths (running offsets by closed form, 3x3 layout with distinct prefix sums); multi-path Norm on small concrete objects; size invariant of Vector (components.size()==dimension after every writer) and copy completeness of the copy constructors / operator= of Vector and Matrix (every member copied on every path)',
     'C06': 'C06.l a probability computed from the a>100 quadrature is clamped to [0,1] (min/max, if- or ternary form); C06.k the starting value of the Inv_GammaP iteration is non-decreasing in p on a (p,a) grid; GammaP+GammaQ=1 as an identity of terms on every pair of branches; no history-carrying function-local state in the gamma family (exact caches exempt)',
-    'C07': 'the KDE is normalised by the exact integral of its own interpolant (Interpolation::Integrate), not by an adaptive quadrature of it; the tabulated KDE value is the kernel sum divided by bandwidth times the total weight',
+    'C07': 'PMF_Binomial inherits the form of Binomial_Coefficient (C06.e) and the CDFs the clamp of the quadrature branch (C06.l); the KDE is normalised by the exact integral of its own interpolant (Interpolation::Integrate), not by an adaptive quadrature of it; the tabulated KDE value is the kernel sum divided by bandwidth times the total weight',
     'C08': 'C08.g the integration limit enters the stem function only as its offset from the segment\'s knot (no difference of abscissa-sized numbers); the knots Local_Minimum/Maximum compare are exactly the knots inside [x1,x2], decided on a concrete table with limits in and around both extrapolation zones; cached state of the integral/extremum queries: every writer of an input of the cached value (transitively through in-class helpers) touches the cache',
     'C10': 'C10.f tables of length 0 and ragged tables: a literal-position read of a caller-supplied vector happens only for longer containers (reach condition evaluated for every shorter length), p[r\'][c] with c bounded by another row needs a test of its own row, and a literal column read p[r][k] a test of the row lengths; containers sized like a parameter (resize(p.size())) and once-assigned copies of a table count as that parameter; q[i+c] under a loop over another list p is evaluated on concrete lengths len(q) < len(p) (mismatched list lengths); every field the domain guard of Locate reads is computed after the abscissae received their unit factor; Export_Table checks the length of every row; an order guard written with std::adjacent_find',
     'C12': 'every returning path of Integrate_Gauss_Legendre(func,a,b,n) builds the rule for (n,a,b) and delegates (only a==b may return 0); the rule builder and the three integrators keep no history-carrying local state (exact caches exempt)',
     'C14': 'C14.f the point handed to the integrand has region.size()/2 coordinates in every integrator; C14.a per call site of Vegas in Integrate_MC (a continuation run with init>0 is undecided); the bin of a Vegas sample point is the integer part of its own stratified coordinate; every value Miser writes into its mean is the mean of the box\'s own samples or the fraction-weighted mean of its two halves',
     'C15': 'QR and the eigen routines inherit the obligations of C04 about Norm/Normalize/products/block constructor; C15.a/b/c are decided on normal forms of object-valued terms (reflector I-2uu^T, one QR sweep incl. early-continue paths, one QR iteration and its convergence measure)',
-    'C19': 'for constant data every accumulated sum of the weighted standard error vanishes identically (no cancellation between sums); Range (strided loops summarised, a branch through the function itself unfolded once, std::reverse) is evaluated as a closed form on the complete domain min,max in [-40,40], stepsize 1..40',
+    'C19': 'Workload_Distribution computes its indices in integer arithmetic (a truncated floating-point term is undecided); for constant data every accumulated sum of the weighted standard error vanishes identically (no cancellation between sums); Range (strided loops summarised, a branch through the function itself unfolded once, std::reverse) is evaluated as a closed form on the complete domain min,max in [-40,40], stepsize 1..40',
     'C20': 'header lines are skipped as whole lines (unbounded ignore count or getline); a container overload of In_Units may hand the input back only where the unit factor is 1 and no rounding is requested; Count_Lines counts every line unconditionally; Export/Import element and unit terms are evaluated in the loop state',
 }
 
